@@ -39,10 +39,15 @@ def ref_vec(n):
     from localcider.sequenceParameters import SequenceParameters as SP
     r = _vec.get(n)
     if r is None:
-        r = _vec[n] = api_vector(SP(n))
+        r = _vec[n] = api_vector(SP(n), light="tiny" if len(n) > 400 else False)
         if len(_vec) > 50000:
             _vec.clear()
     return r
+
+
+def sh(x):
+    r = repr(x)
+    return r if len(r) <= 100 else r[:90] + "...' (%d characters)" % len(x)
 
 
 def normalise(s):
@@ -76,7 +81,7 @@ def check_case(case):
         o = SP(s)
     except Exception as e:  # noqa
         if valid:
-            v("valid-string-rejected", "SequenceParameters(%r) raised %r but normalises to the valid word %s" % (s, e, n), normalised=n)
+            v("valid-string-rejected", "SequenceParameters(%s) raised %r but normalises to the valid word %s" % (sh(s), e, sh(n)), normalised=n[:200])
         else:
             # a rejected string stays rejected when it is submitted again (second and third attempt in the same process)
             for attempt in (2, 3):
@@ -99,8 +104,8 @@ def check_case(case):
             shown = o.get_sequence()
         except Exception:  # noqa
             shown = "?"
-        v("invalid-string-accepted", "SequenceParameters(%r) was accepted (sequence %r) but it is not a word over the 20 residues "
-          "after normalisation (%r)" % (s, shown, n), normalised=n)
+        v("invalid-string-accepted", "SequenceParameters(%s) was accepted (sequence %s) but it is not a word over the 20 residues "
+          "after normalisation (%s)" % (sh(s), sh(shown), sh(n)), normalised=n[:200])
         return out, "accepted-invalid", 1
     calls = 1
     try:
@@ -110,18 +115,19 @@ def check_case(case):
         v("exception", "getters on SequenceParameters(%r) raised %r" % (s, e))
         return out, "accepted", calls
     if got != (n, len(n), len(n)):
-        v("not-normalised", "SequenceParameters(%r): (sequence, get_length, len) = %r, expected %r" % (s, got, (n, len(n), len(n))),
+        v("not-normalised", "SequenceParameters(%s): (sequence, get_length, len) = %r, expected %r" % (sh(s), (sh(got[0]),) + tuple(got[1:]), (sh(n), len(n), len(n))),
           normalised=n)
-    a = api_vector(o)
+    a = api_vector(o, light="tiny" if len(n) > 400 else False)
     calls += len(a)
     d = diff(a, ref_vec(n))
     if d:
-        v("analysis-differs:" + d[0], "SequenceParameters(%r).%s = %r but the normalised word %s gives %r" % (s, d[0], d[1], n, d[2]),
+        v("analysis-differs:" + d[0], "SequenceParameters(%s).%s = %s but the normalised word %s gives %s" % (sh(s), d[0], sh(d[1]), sh(n), sh(d[2])),
           normalised=n)
     # the string together with a (never opened) sequenceFile argument: the string still decides
     try:
         o3 = SP(s, sequenceFile="/nonexistent/vmc_c13.fasta")
-        if o3.get_sequence() != n or api_vector(o3, light=True) != api_vector(SP(n), light=True):
+        lt = "tiny" if len(n) > 400 else True
+        if o3.get_sequence() != n or api_vector(o3, light=lt) != api_vector(SP(n), light=lt):
             v("string-with-file-argument", "SequenceParameters(%r, sequenceFile=...) gives sequence %r / different analyses" % (s, o3.get_sequence()),
               normalised=n)
         calls += 12
@@ -135,7 +141,7 @@ def check_case(case):
         try:
             from localcider.backend.sequence import Sequence
             from localcider.sequencePermutants import SequencePermutants
-            a2 = api_vector(SP(SeqObj=Sequence(raw)))
+            a2 = api_vector(SP(SeqObj=Sequence(raw)), light="tiny" if len(n) > 400 else False)
             calls += len(a2)
             d2 = diff(a2, ref_vec(n))
             if d2:
@@ -267,6 +273,25 @@ def shard(s):
                 yield {"kind": "string", "s": ("+-0" * n)[:n]}
                 yield {"kind": "string", "s": " " * n}
                 yield {"kind": "string", "s": (" \t\n" * n)[:n]}
+            # many separate whitespace stretches (blocks of ten over 600 / 2500 residues, 60-column lines over 3000), and
+            # very long strings (beyond 2000 characters) carrying one foreign character from outside Latin-1 whose code is
+            # congruent modulo 256 / 65536 to a whitespace character or a residue letter, or real Unicode whitespace
+            for n in (600, 2500):
+                w = (base * (n // len(base) + 1))[:n]
+                yield {"kind": "string", "s": " ".join(w[i:i + 10] for i in range(0, n, 10))}
+                yield {"kind": "string", "s": "\n".join(w[i:i + 60] for i in range(0, n, 60)) + "\n"}
+                yield {"kind": "string", "s": "\t \r\n".join(w[i:i + 5].lower() for i in range(0, n, 5))}
+            n = 2100
+            w = (base * (n // len(base) + 1))[:n]
+            yield {"kind": "string", "s": w}
+            for basecp in (0x100, 0x2000, 0x3000, 0xFF00, 0x10000, 0x1F600):
+                for off in (9, 10, 13, 32, 65, 75, 97, 42, 43, 48):
+                    c = chr(basecp + off)
+                    for pos in (0, 1000, n):
+                        yield {"kind": "string", "s": w[:pos] + c + w[pos:]}
+            for c in ("\u2003", "\u3000", "\u2028", "\x85", "\xa0", "\u200b", "\u200d", "\u2020", "\u0141", "\u0120", "\ufeff"):
+                yield {"kind": "string", "s": w[:700] + c + w[700:]}
+                yield {"kind": "string", "s": c + w}
             for n in (49, 50, 51, 64):
                 w = (base * 4)[:n]
                 yield {"kind": "string", "s": w[:n - 1] + "0"}
@@ -319,7 +344,7 @@ def run(tier, seed, t0):
         PROP, tier, seed, acc, t0,
         rule="every string of length 0..%d over a 17-symbol alphabet (upper/lower residues, space, tab, newline, U+00A0, U+001C, "
              "B, 1, *, -, e-acute, NUL, dotless i, sharp s, >), every code point U+0000..U+%04X inserted at every position of 3 host "
-             "sequences, long strings (49..300 characters) in valid, mixed and invalid forms (foreign +, -, 0, * at three positions, all blank), and %d non-string arguments (incl. objects whose str() is a valid word: nan, inf, Decimal, paths, exceptions, UserString); every rejected string is submitted three times and must stay rejected; oracle from the statement: with n = upper-cased input minus whitespace, "
+             "sequences, long strings (49..3000 characters; up to 500 separate whitespace stretches; 2100-character strings with one foreign character from outside Latin-1 at three positions) in valid, mixed and invalid forms (foreign +, -, 0, * at three positions, all blank), and %d non-string arguments (incl. objects whose str() is a valid word: nan, inf, Decimal, paths, exceptions, UserString); every rejected string is submitted three times and must stay rejected; oracle from the statement: with n = upper-cased input minus whitespace, "
              "construction succeeds iff n is a non-empty word over the 20 letters, then sequence/length/len equal n and a 32-entry "
              "read-only API vector equals that of SequenceParameters(n) (also when the same mixed-case residues are handed over as a backend "
              "Sequence / SequencePermutants); otherwise an exception; in a freshly imported package six sequence files are parsed before "
